@@ -19,7 +19,7 @@ def budget(tier):
 
 def gen(rng, index, tier):
     fam = rng.choice(["complete", "dup", "near", "uniform", "sparse", "complete"])
-    raw, meta = lib.gen_dataset(rng, nmax=6 if tier == "quick" else 9, mmax=5, family=fam, big=0.03)
+    raw, meta = lib.gen_dataset(rng, nmax=6 if tier == "quick" else 9, mmax=5, family=fam, big=0.03, big_nmax=130)
     if rng.random() < 0.6:
         sch = common.family_scheme(rng, rng.choice(["unifying", "unifying", "near", "unifying_half", "pseudo"]))
     else:
